@@ -548,6 +548,10 @@ class Fn:
                 # field of a clone = clone of the field
                 out.add(('clone', T(('field', n[1], name))))
                 continue
+            if n[0] == 'rec' and len(base) > 1:
+                # the value carried round a loop unchanged (`else { acc }`): its fields are the fields of the other
+                # definitions of the same variable, already in this set
+                continue
             rest.add(n)
         if rest:
             out.add(('field', frozenset(rest), name))
@@ -673,6 +677,10 @@ class Fn:
             return T(('clone', args[0]))
         if path in INDEX and len(args) == 2:
             return T(('index', args[0], args[1]))
+        if len(args) == 1 and f.get('trait') and hasattr(self.b.crate, 'accessors'):
+            acc = self.b.crate.accessors().get(path)
+            if acc is not None:
+                return self._field(args[0], acc)        # a uniform field accessor of one of the crate's traits
         if path in CMP_CALLS and len(args) == 2 and PRIM_REF.match(f.get('self_ty') or ''):
             # `a < b` on references to primitives is a call of the blanket impl for &A; references are transparent in terms
             return T(('binop', CMP_CALLS[path], args[0], args[1]))
